@@ -862,6 +862,9 @@ func (r *runningStep) provideEnablingInput(input map[string]any) error {
 	// This is an optional field, so no input means enabled.
 	enabled := input["enabled"] == nil || input["enabled"] == true
 	r.enabledInputAvailable = true
+	if r.state == step.RunningStepStateWaitingForInput && r.currentStage == StageIDEnabling {
+		r.state = step.RunningStepStateRunning
+	}
 	r.enabledInput <- enabled
 	return nil
 }
@@ -894,6 +897,9 @@ func (r *runningStep) provideStartingInput(input map[string]any) error {
 
 	// Make sure we transition the state before unlocking so there are no race conditions.
 	r.runInputAvailable = true
+	if r.state == step.RunningStepStateWaitingForInput && r.currentStage == StageIDStarting {
+		r.state = step.RunningStepStateRunning
+	}
 
 	// Unlock before passing the data over the channel to prevent a deadlock.
 	// The other end of the channel needs to be unlocked to read the data.
@@ -1138,9 +1144,11 @@ func (r *runningStep) deployStage() (deployer.Plugin, bool, error) {
 		r.state = step.RunningStepStateRunning
 		r.lock.Unlock()
 	default: // Default, so it doesn't block on this receive
-		// It's waiting now.
+		// It's waiting now, unless the input was provided in the meantime.
 		r.lock.Lock()
-		r.state = step.RunningStepStateWaitingForInput
+		if !r.deployInputAvailable {
+			r.state = step.RunningStepStateWaitingForInput
+		}
 		r.lock.Unlock()
 		select {
 		case deployerConfig = <-r.deployInput:
@@ -1180,7 +1188,12 @@ func (r *runningStep) enableStage() (bool, bool) {
 	previousStage := string(r.currentStage)
 	r.currentStage = StageIDEnabling
 	enabledInputAvailable := r.enabledInputAvailable
-	r.state = step.RunningStepStateWaitingForInput
+	if enabledInputAvailable {
+		// The input is already in the channel, so the step is not waiting for anything.
+		r.state = step.RunningStepStateRunning
+	} else {
+		r.state = step.RunningStepStateWaitingForInput
+	}
 	r.lock.Unlock()
 
 	r.stageChangeHandler.OnStageChange(
@@ -1502,6 +1515,10 @@ func (r *runningStep) transitionStageWithOutput(
 	// Don't forget to update this, or else it will behave very oddly.
 	// First running, then finished. You can't skip states.
 	r.state = state
+	if newStage == StageIDStarting && r.runInputAvailable {
+		// The input was provided in the meantime; the step is not waiting for it anymore.
+		r.state = step.RunningStepStateRunning
+	}
 	r.lock.Unlock()
 	r.stageChangeHandler.OnStageChange(
 		r,
